@@ -245,7 +245,8 @@ def run(ctx):
     else:
         wl, follow = [], "-"
         ctx.log("repaired tree: C06_pool_limit_while_running_refuted is a statement about the unrepaired code; its witness is not replayed")
-    for name, script in EXAMPLES + ([REPAIRED_EXAMPLE] if repaired else []):
+    # (a trace that contains a worker leaving through the bottom exit -- script with f -- differs between the two trees)
+    for name, script in ([e for e in EXAMPLES if "f" not in e[1].split()] + [REPAIRED_EXAMPLE]) if repaired else EXAMPLES:
         el, ef, ereal, ehdr = replay_model_trace(name, script)
         ok = (" status 0 " in ehdr) and (" div 0 " in ehdr) and (" rc 0 " in ehdr) and ereal == el and len(el) > 10
         examples_ok[name] = ok
@@ -331,6 +332,18 @@ def run(ctx):
                     else:
                         ctx.violation("solve:%s:scenario=%s" % (what, sc), "real solve under the scheduler shim fails: %s (status %s rc %s)"
                                       % (what, r.get("status"), r.get("rc")), rep)
+    # call sites of the three entry points in the library (read off the snapshot; recorded, no verdict)
+    call_sites = []
+    try:
+        root = os.path.join(ctx.snap("shim"), "src", "libmps")
+        for dp, _, fs in os.walk(root):
+            for f in sorted(fs):
+                if f.endswith((".c", ".cpp")) and f != "threading.c":
+                    for i, line in enumerate(open(os.path.join(dp, f), errors="replace"), 1):
+                        m = re.search(r"\b(mps_thread_pool_(?:set_concurrency_limit|free|new|assign|wait))\s*\(", line)
+                        if m: call_sites.append("%s:%d:%s" % (os.path.relpath(os.path.join(dp, f), root), i, m.group(1)))
+    except Exception as e:
+        ctx.log("call site scan failed: %s" % e)
     tot_solve = sum(c["runs"] for c in solve_cov.values())
     ctx.log("solver discipline: %d real solves under the shim, %d limit-lowering calls, %d pool frees, all on a quiescent pool: %s"
             % (tot_solve, sum(c["lowering"] for c in solve_cov.values()), sum(c["free"] for c in solve_cov.values()),
@@ -355,7 +368,7 @@ def run(ctx):
         "runs_with_nested_assign_validated_by_model": tot["nested_runs"],
         "script_kind_histogram": kinds,
         "tree_repaired": repaired,
-        "solver_discipline": {"real_solves_under_shim": tot_solve, "per_scenario": solve_cov,
+        "solver_discipline": {"real_solves_under_shim": tot_solve, "per_scenario": solve_cov, "library_call_sites": sorted(call_sites),
                               "rule": "every call of set_concurrency_limit / free / assign / wait made during real solves (scenarios: -j2, context re-use, degree < threads, Chebyshev, async private pool, secular; MPS_JOBS 4 and 2; default + random + PCT schedules) is intercepted at link time; a limit-lowering or free on a pool with busy_counter != 0 or a non-empty queue is a violation; nested_assign counts assigns made by a worker of the same pool"},
         "model_start_state": "init_r (repaired)" if repaired else "init",
         "example_traces_reproduced": examples_ok,
